@@ -419,8 +419,30 @@ func ruleC03_5(c *Ctx) {
 	var queue *ssa.Phi
 	for _, b := range f.Blocks {
 		for _, in := range b.Instrs {
-			if ph, ok := in.(*ssa.Phi); ok && ph.Comment == "queue" {
-				queue = ph
+			// the queue: a loop-carried Set (phi at a loop header) that some back edge updates with Set.Difference of itself
+			if ph, ok := in.(*ssa.Phi); ok && typeStr(ph.Type()) == "in_toto.Set" {
+				for i, e := range ph.Edges {
+					if !b.Dominates(b.Preds[i]) {
+						continue
+					}
+					if call, ok := e.(*ssa.Call); ok && calleeName(call) == "(in_toto.Set).Difference" && call.Call.Args[0] == ssa.Value(ph) {
+						queue = ph
+					}
+				}
+				if queue == nil {
+					// fall back: the only loop-carried Set
+					isHeader := false
+					for i := range ph.Edges {
+						if b.Dominates(b.Preds[i]) {
+							isHeader = true
+						}
+					}
+					if isHeader && derives(ph, func(v ssa.Value) bool {
+						return strings.HasSuffix(org(v), `{const("artifactPaths")}.(in_toto.Set)`)
+					}, false) {
+						queue = ph
+					}
+				}
 			}
 		}
 	}
@@ -685,8 +707,18 @@ func ruleC03_7(c *Ctx) {
 	var dst *ssa.Phi
 	for _, b := range f.Blocks {
 		for _, in := range b.Instrs {
-			if ph, ok := in.(*ssa.Phi); ok && ph.Comment == "dstArtifacts" {
-				dst = ph
+			// the destination artifacts: the merged map[string]HashObj selected by the rule's dstType
+			if ph, ok := in.(*ssa.Phi); ok && typeStr(ph.Type()) == "map[string]in_toto.HashObj" {
+				fromDst := false
+				for _, e := range ph.Edges {
+					o := org(e)
+					if strings.HasSuffix(o, ".(in_toto.Link).Materials") || strings.HasSuffix(o, ".(in_toto.Link).Products") {
+						fromDst = true
+					}
+				}
+				if fromDst {
+					dst = ph
+				}
 			}
 		}
 	}
